@@ -1386,7 +1386,7 @@ pub fn run(ctx: &Ctx) -> Report {
         }
     }
     let t_main = ctx.elapsed();
-    let hard = (ctx.budget_s - t_main).min(ctx.pick((24.0 - t_main).max(12.0), 470.0));
+    let hard = (ctx.budget_s - t_main).min(ctx.pick((50.0 - t_main).max(25.0), 470.0));
     // small worlds first; each world may run until its cumulative share of the wall budget is used up (slack is passed on)
     let order: [(&str, f64); 7] = [("splash", 0.02), ("ts5000", 0.08), ("lo64", 0.14), ("hi64", 0.20), ("ts3neg", 0.26), ("ts1", 0.35), ("ts64", 1.0)];
     let all = specs();
